@@ -330,6 +330,16 @@ func (g *Gen) famHostileQuery() {
 	a255 := sdk.AccAddress(make([]byte, 255)).String()
 	a256 := sdk.AccAddress(make([]byte, 256)).String()
 	pgs := []*query.PageRequest{nil, {Key: []byte{0xff, 0x00, 0x01}}, {Offset: 1 << 62}, {Limit: ^uint64(0)}, {Key: []byte("x"), Offset: 3}, {Reverse: true, Key: r.Bytes(300)}, {Limit: 1, CountTotal: true, Reverse: true}, {Key: []byte{0x05}}}
+	// keys shaped like real listing keys (the last stored key is the interesting one for reverse paging)
+	tn := topicPool[r.Intn(len(topicPool))]
+	acc := g.env.Accs[r.Intn(NumAccounts)].Addr
+	pgs = append(pgs,
+		&query.PageRequest{Reverse: true, Key: append([]byte{byte(len(tn))}, tn...)},
+		&query.PageRequest{Reverse: r.Chance(0.7), Key: append([]byte{byte(len(acc))}, acc...)},
+		&query.PageRequest{Reverse: true, Key: []byte(denomPool[r.Intn(len(denomPool))])},
+		&query.PageRequest{Reverse: true, Key: []byte{byte(r.Intn(256))}, Limit: 1},
+		&query.PageRequest{Reverse: true, Key: []byte{0xff}},
+		&query.PageRequest{Reverse: true, Key: []byte{0x00}})
 	pg := pgs[r.Intn(len(pgs))]
 	cands := []HQuery{
 		hq(qRecord, &aoltypes.QueryRecordRequest{OwnerAddress: o, TopicName: big, Offset: 0}),
